@@ -235,3 +235,34 @@ where
         })
     }
 }
+
+impl Default for ReBody {
+    /// An already finished body (generated `with_interceptor` asks `ResponseBody: Default`).
+    fn default() -> ReBody {
+        ReBody { sim: Sim::generate(0, false), inner: tonic::body::Body::default(), inner_done: true, carry: VecDeque::new(), pending_trailers: None, pending_err: None, finished: true, tap: Arc::new(Mutex::new(vec![])), call: 0, dir: Dir::Resp, pending_pct: 0, recut: false, consec_pending: 0 }
+    }
+}
+
+/// Adapts a server-side service whose response body is not `tonic::body::Body` itself (e.g.
+/// `InterceptedService`) to what `Loopback` carries.
+#[derive(Clone)]
+pub struct BoxResp<S>(pub S);
+
+impl<S, ReqB, RespB> tower_service::Service<http::Request<ReqB>> for BoxResp<S>
+where
+    S: tower_service::Service<http::Request<ReqB>, Response = http::Response<RespB>, Error = std::convert::Infallible>,
+    S::Future: Send + 'static,
+    RespB: Body<Data = Bytes> + Send + 'static,
+    RespB::Error: Into<Box<dyn std::error::Error + Send + Sync>>,
+{
+    type Response = http::Response<tonic::body::Body>;
+    type Error = std::convert::Infallible;
+    type Future = Pin<Box<dyn Future<Output = Result<Self::Response, Self::Error>> + Send>>;
+    fn poll_ready(&mut self, cx: &mut Context<'_>) -> Poll<Result<(), Self::Error>> {
+        self.0.poll_ready(cx)
+    }
+    fn call(&mut self, req: http::Request<ReqB>) -> Self::Future {
+        let fut = self.0.call(req);
+        Box::pin(async move { fut.await.map(|r| r.map(tonic::body::Body::new)) })
+    }
+}
